@@ -61,6 +61,8 @@ const KNOWN_RULES: &[&str] = &[
     "havoc_iter",
     "opt_match",
     "std_net",
+    "opt_map",
+    "spawn_drop",
 ];
 
 pub fn apply(repo: &str, req: &ItemReq, f: &mut FnUnderEdit) -> Result<(), String> {
@@ -173,9 +175,16 @@ pub fn apply(repo: &str, req: &ItemReq, f: &mut FnUnderEdit) -> Result<(), Strin
         let n = v.n;
         f.fire("std_net", n);
     }
+    // R31 detached background tasks are dropped
+    if has("spawn_drop") {
+        let mut v = SpawnDrop { n: 0 };
+        v.visit_block_mut(&mut f.block);
+        let n = v.n;
+        f.fire("spawn_drop", n);
+    }
     // R29 Option combinators with a function argument -> match
-    if has("opt_match") {
-        let mut v = OptMatch { n: 0 };
+    if has("opt_match") || has("opt_map") {
+        let mut v = OptMatch { n: 0, map: has("opt_map"), others: has("opt_match") };
         v.visit_block_mut(&mut f.block);
         let n = v.n;
         f.fire("opt_match", n);
@@ -617,6 +626,33 @@ impl VisitMut for StdNet {
 /// type-check, which ends the run with exit 2.
 struct OptMatch {
     n: usize,
+    /// also rewrite `o.map(F)` (R29b, rule `opt_map`)
+    map: bool,
+    others: bool,
+}
+// ---------------------------------------------------------------- R31
+/// statement `tokio::spawn(async move { .. });` (a detached task whose handle is discarded) is removed
+struct SpawnDrop {
+    n: usize,
+}
+impl VisitMut for SpawnDrop {
+    fn visit_block_mut(&mut self, b: &mut syn::Block) {
+        let before = b.stmts.len();
+        b.stmts.retain(|st| {
+            if let syn::Stmt::Expr(syn::Expr::Call(c), Some(_)) = st {
+                if let syn::Expr::Path(p) = &*c.func {
+                    if norm(&p.path) == "tokio::spawn" && c.args.len() == 1 {
+                        if let syn::Expr::Async(_) = &c.args[0] {
+                            return false;
+                        }
+                    }
+                }
+            }
+            true
+        });
+        self.n += before - b.stmts.len();
+        visit_mut::visit_block_mut(self, b);
+    }
 }
 fn opt_simple_default(e: &syn::Expr) -> bool {
     match e {
@@ -665,7 +701,13 @@ impl VisitMut for OptMatch {
             let name = m.method.to_string();
             let v = syn::Ident::new("__vx_v", proc_macro2::Span::call_site());
             let recv = &m.receiver;
-            if name == "map_or" && m.args.len() == 2 && opt_simple_default(&m.args[0]) {
+            if name == "map" && self.map && m.args.len() == 1 {
+                if let Some(app) = opt_apply(&m.args[0], &v) {
+                    *e = syn::parse_quote!(match #recv { Some(#v) => Some(#app), None => None });
+                    self.n += 1;
+                }
+            } else if !self.others {
+            } else if name == "map_or" && m.args.len() == 2 && opt_simple_default(&m.args[0]) {
                 if let Some(app) = opt_apply(&m.args[1], &v) {
                     let d = &m.args[0];
                     *e = syn::parse_quote!(match #recv { Some(#v) => #app, None => #d });
@@ -1036,6 +1078,19 @@ impl<'a> VisitMut for TypeSubst<'a> {
         // `S::method(..)` where S is substituted
         if p.qself.is_none() && p.path.segments.len() >= 2 {
             let first = p.path.segments[0].ident.to_string();
+            if !p.path.segments[0].arguments.is_none() {
+                // `T::<A>::f(..)` where the type `T<A>` is substituted
+                let key = norm(&p.path.segments[0]).replace("::<", "<");
+                if let Some(rep) = self.map.get(&key) {
+                    if let Ok(ty) = parse_type(rep) {
+                        let rest: Vec<_> = p.path.segments.iter().skip(1).cloned().collect();
+                        let np: syn::ExprPath = syn::parse_quote!(<#ty>::#(#rest)::*);
+                        *p = np;
+                        self.n += 1;
+                        return;
+                    }
+                }
+            }
             if p.path.segments[0].arguments.is_none() {
                 if let Some(rep) = self.map.get(&first) {
                     if let Ok(ty) = parse_type(rep) {
